@@ -73,7 +73,9 @@ namespace detail
 			if(Value == 0)
 				return -1;
 
-			return glm::bitCount(~Value & (Value - static_cast<genIUType>(1)));
+			// Value - 1 in the unsigned type: it overflows for the most negative signed value
+			typedef typename make_unsigned<genIUType>::type U;
+			return glm::bitCount(static_cast<U>(~static_cast<U>(Value) & (static_cast<U>(Value) - static_cast<U>(1))));
 		}
 	};
 
